@@ -91,6 +91,11 @@ def run(prog, res):
   _pwl_subject(prog, res)
   _kfl_sign(prog, res)
   res.floor('A6', 1)
+  # the linear assertion judges range dominance with the same scaling the
+  # projection uses (sign * width, each width once): shared with C06
+  from . import C06
+  C06._scaling(prog, res)
+  res.floor('P4', 4)
   _learned_guard(prog, res)
   res.floor('A8', 1)
   res.floor('A7', 1)
